@@ -18,7 +18,8 @@ EXPLANATION = (
     "particles (mother first) and repeats while any of them remains in the final state; C12.3 within one substitution the "
     "multiplicity is read before any update and the same (particle, multiplicity) pair drives the exponent, the number of "
     "daughter additions and the removal; C12.4 the result is a new chain {mother: DecayMode(product, leaves, **top-level "
-    "metadata)}; visible_bf is the flattened bf.")
+    "metadata)}; visible_bf is the flattened bf; C12.5 the DecayMode constructor that receives the product and the leaves "
+    "stores them unchanged (no rounding / conversion of bf, daughters = DaughtersDict(leaves), every keyword to metadata).")
 NOT_DECIDED = ["that the computed number equals the product over the tree and the multiset equals the leaves (arithmetic over runtime values): not applicable",
                "order-independence as an equality of results"]
 F = "DecayChain.flatten"
@@ -37,6 +38,8 @@ def _roles(ff, flow):
 def run(ctx, ss):
     for r, f in (("C12.1", c12_1), ("C12.2", c12_2), ("C12.3", c12_3), ("C12.4", c12_4)):
         ctx.guard(r, f, ss)
+    from .c11 import ctor_clauses
+    ctx.guard("C12.5", ctor_clauses, ss, "C12.5")
 
 
 def c12_1(ctx, ss):
